@@ -367,6 +367,43 @@ def instantiate_macro_fn(file, macro, arm_idx, bindings, fn_name, invocation):
     hdr_text = re.sub(r"\s+", " ", inst[impls[0].s:impls[0].body_open].strip()) if impls else None
     return fns[0], hdr_text, hashlib.sha256((matcher + "=>" + body).encode()).hexdigest()
 
+def instantiate_macro_block(file, macro, arm_idx, bindings, sig, invocations):
+    """R5b: the transcriber of arm k is a *block expression* `{ stmts; tail }` (the macro is used in expression position
+    inside other functions). The block, with the metavariables substituted textually, becomes the body of a function whose
+    signature `sig` is given by the unit (the signature has no counterpart in /repo; it only names the places the macro
+    is applied to). Returns a fn Item located in the synthesized text `sig + block`."""
+    src, items = items_of(file)
+    cands = [it for it in items if it.kind == "macro" and it.name == macro]
+    if len(cands) != 1:
+        raise GenError("anchor lost: macro %s in %s (%d matches)" % (macro, file, len(cands)))
+    arms = macro_arms(cands[0])
+    if arm_idx >= len(arms):
+        raise GenError("anchor lost: macro %s has no arm %d" % (macro, arm_idx))
+    matcher, body = arms[arm_idx]
+    metas = re.findall(r"\$(\w+)\s*:", matcher)
+    for k in bindings:
+        if k not in metas:
+            raise GenError("anchor lost: macro %s arm %d has no metavariable $%s (has %s)" % (macro, arm_idx, k, metas))
+    for k in metas:
+        if k not in bindings:
+            raise GenError("macro %s arm %d: metavariable $%s unbound" % (macro, arm_idx, k))
+    for inv in invocations:
+        if norm(inv) not in norm(src):
+            raise GenError("anchor lost: invocation `%s` not found in %s" % (inv, file))
+    inst = body.strip()
+    if not (inst.startswith("{") and inst.endswith("}")):
+        raise GenError("macro %s arm %d: transcriber is not a single block expression" % (macro, arm_idx))
+    for k, v in bindings.items():
+        inst = re.sub(r"\$%s\b" % re.escape(k), v, inst)
+    if "$" in inst:
+        raise GenError("macro %s arm %d: unsubstituted metavariable / repetition left in the block" % (macro, arm_idx))
+    text = sig.strip() + " " + inst + "\n"
+    sub_items = rustlex.scan_items(text)
+    fns = [it for it in sub_items if it.kind == "fn"]
+    if len(fns) != 1:
+        raise GenError("macroblock: signature + block of %s arm %d does not scan as one fn" % (macro, arm_idx))
+    return fns[0], hashlib.sha256((matcher + "=>" + body).encode()).hexdigest(), cands[0]
+
 # ------------------------------------------------------------------ merge
 
 def parse_region(lines):
@@ -442,7 +479,7 @@ def process_unit(path, meta, update_mirror=False):
             a, b = s[len("//@@ subst "):].split("=>")
             substs.append((a.strip(), b.strip()))
             out.append(l); mirror_out.append(l); i += 1; continue
-        m = re.match(r"//@@ (fn|item|const|rawconst|macrofn)\s+(.*)$", s)
+        m = re.match(r"//@@ (fn|item|const|rawconst|macrofn|macroblock)\s+(.*)$", s)
         if not m:
             out.append(l); mirror_out.append(l); i += 1; continue
         kind = m.group(1)
@@ -453,7 +490,46 @@ def process_unit(path, meta, update_mirror=False):
             if j >= len(src_lines): raise GenError("%s: missing //@@ end after line %d" % (path, i + 1))
         region = src_lines[i+1:j]
         log = set()
-        if kind == "macrofn":
+        if kind == "macroblock":
+            # //@@ macroblock <file> | <macro> | arm <k> | a=x,b=y | <fn name> | body|stub | props .. | sig <fn signature> | invocation <text> [| invocation <text>]
+            file, macro, armf, bindf, name, mode = fields[0], fields[1], fields[2], fields[3], fields[4], fields[5]
+            arm_idx = int(armf.split()[1])
+            bindings = dict(kv.strip().split("=") for kv in bindf.split(",") if kv.strip())
+            props, invocations, sig = [], [], None
+            for f in fields[6:]:
+                if f.startswith("props"): props = f.split()[1:]
+                if f.startswith("invocation"): invocations.append(f[len("invocation"):].strip())
+                if f.startswith("sig "): sig = f[len("sig "):].strip()
+            if sig is None: raise GenError("macroblock %s: no `sig` field" % name)
+            item, arm_sha, mitem = instantiate_macro_block(file, macro, arm_idx, bindings, sig, invocations)
+            if item.name != name: raise GenError("macroblock: signature names fn %s, region says %s" % (item.name, name))
+            log.add("R5b")
+            new_lines = rewrite_fn(item, False, log)
+            new_lines = apply_subst(new_lines, substs, log)
+            ctx, ann = parse_region(region)
+            mfid = "%s|%s!arm%d{%s}|%s" % (file, macro, arm_idx, bindf.replace(" ", ""), name)
+            if mode == "stub" or mfid in STUBIFY:
+                kb = next(k for k, x in enumerate(new_lines) if x.strip() == "{")
+                new_lines = ["#[verifier::external_body]"] + new_lines[:kb] + ["{", "    unimplemented!()", "}"]
+                log.add("STUB")
+            merged, exact = merge(new_lines, ctx, ann)
+            if mfid in STUBIFY and mode == "body":
+                merged = keep_contract_only(merged); log.add("FORCED-STUB")
+            emitted = merged
+            if mfid in STRIP and mode == "body":
+                emitted = strip_body_annotations(merged); log.add("HINTS-DROPPED")
+            if mfid in CANARY and mode == "body":
+                emitted = add_canary(merged)
+            start_line = len(out) + 2
+            out.append(l); out.extend(emitted); out.append("//@@ end")
+            mirror_out.append(l); mirror_out.extend(merged); mirror_out.append("//@@ end")
+            meta["functions"].append({
+                "id": mfid, "unit": unit, "mode": mode, "props": props,
+                "file": file, "src_line": mitem.src[:mitem.s].count("\n") + 1,
+                "source_sha256": arm_sha, "rewrites": sorted(log), "gen_lines": [start_line, len(out)],
+                "mirror_in_sync": exact, "contract": contract_of(merged), "synthetic_signature": sig,
+            })
+        elif kind == "macrofn":
             # //@@ macrofn <file> | <macro> | arm <k> | a=1,b=2 | <fn> | body|stub | props .. | invocation <text>
             file, macro, armf, bindf, name, mode = fields[0], fields[1], fields[2], fields[3], fields[4], fields[5]
             arm_idx = int(armf.split()[1])
